@@ -210,23 +210,37 @@ Proof. intros x l H. unfold exists_in. destruct (lookup x l); congruence. Qed.
 Lemma exists_in_false : forall x l, lookup x l = None -> exists_in x l = false.
 Proof. intros x l H. unfold exists_in. now rewrite H. Qed.
 
+Definition fkey (idx : nat) : path := [2%nat; idx].
+
+Lemma fresh_under_marker : forall idx v m, fresh [idx] m -> fresh [O; idx] (pos_set (fkey idx) v m).
+Proof.
+  intros idx v m H k Hk. rewrite pos_get_set_other.
+  - apply H. eapply below_cons; eauto.
+  - intros E. destruct Hk as [l Hl]. rewrite <- E in Hl. unfold fkey in Hl.
+    destruct l as [| a l]; [discriminate |]. apply (f_equal (@length nat)) in Hl.
+    cbn in Hl. rewrite app_length in Hl. cbn in Hl. lia.
+Qed.
+
+(* re-entered activation: the variable exists and the declaration record is there *)
 Lemma mexec_for_present : forall p x i c u b st,
-  exists_in x (m_loc st) = true ->
+  exists_in x (m_loc st) = true -> pos_get (2%nat :: p) (m_pos st) <> None ->
   MX p (SFor x i c u b) st =
   match mfor true (fun l => truthy (eval c l)) (compound_with MX (O :: p) b)
              (fun l => assign x (eval u l) l) fuel st with
-  | (st', ONormal) => (st', ONormal)
+  | (st', ONormal) => (mkM (remove x (m_loc st')) (pos_del (2%nat :: p) (m_pos st')) (m_out st'), ONormal)
   | r => r
   end.
-Proof. intros. cbn [mexec]. rewrite H. reflexivity. Qed.
+Proof.
+  intros. cbn [mexec]. rewrite H. cbn [negb orb]. destruct (pos_get (2%nat :: p) (m_pos st)); [reflexivity | congruence].
+Qed.
 
 Lemma mexec_for_absent : forall p x i c u b st,
   exists_in x (m_loc st) = false ->
   MX p (SFor x i c u b) st =
   match mfor true (fun l => truthy (eval c l)) (compound_with MX (O :: p) b)
              (fun l => assign x (eval u l) l) fuel
-             (with_loc st (declare x (eval i (m_loc st)) (m_loc st))) with
-  | (st', ONormal) => (with_loc st' (remove x (m_loc st')), ONormal)
+             (mkM (declare x (eval i (m_loc st)) (m_loc st)) (pos_set (2%nat :: p) 1%nat (m_pos st)) (m_out st)) with
+  | (st', ONormal) => (mkM (remove x (m_loc st')) (pos_del (2%nat :: p) (m_pos st')) (m_out st'), ONormal)
   | r => r
   end.
 Proof. intros. cbn [mexec]. rewrite H. reflexivity. Qed.
@@ -238,13 +252,19 @@ Lemma for_reentry_sim : forall body idx x i c u b ret (P : var -> Prop) m,
     agree P lm ls -> lookup x lm <> None ->
     sloop (fun l => truthy (eval c l)) (sblock_with SX b) (fun l => assign x (eval u l) l) k ls = (ls', o, r) ->
     r <> SFuel ->
-    exists n t' ev, mrun' n (T body idx lm m false ret) = (t', ev) /\ outputs_of ev = o /\
+    exists n t' ev, mrun' n (T body idx lm (pos_set (fkey idx) 1%nat m) false ret) = (t', ev) /\ outputs_of ev = o /\
       match r with
-      | SReturn_ v => exists lm', t' = T body idx lm' m true (Some v)
-      | _ => exists lm', t' = T body (S idx) lm' m (done_after body idx) ret /\ agree P lm' ls' /\ same_dom lm lm'
+      | SReturn_ v => exists lm' m', t' = T body idx lm' m' true (Some v)
+      | _ => exists lmL, t' = T body (S idx) (remove x lmL) m (done_after body idx) ret /\
+                         agree P lmL ls' /\ same_dom lm lmL
       end.
 Proof.
   intros body idx x i c u b ret P m Hn Hq Hfr HP Hfuel.
+  assert (HfrF : fresh [O; idx] (pos_set (fkey idx) 1%nat m)) by (apply fresh_under_marker, Hfr).
+  assert (Hdel : pos_del (fkey idx) (pos_set (fkey idx) 1%nat m) = m).
+  { apply pos_del_set_absent, Hfr. exists [2%nat]. reflexivity. }
+  assert (Hown : pos_get (2%nat :: [idx]) (pos_set (fkey idx) 1%nat m) <> None).
+  { unfold fkey. rewrite pos_get_set_same. discriminate. }
   assert (HPc : forall y, In y (evars c) -> P y).
   { intros y Hy. apply HP. cbn. right. apply in_or_app. right. apply in_or_app. now left. }
   assert (HPu : forall y, In y (evars u) -> P y).
@@ -254,12 +274,12 @@ Proof.
   induction k as [| k IH]; intros lm ls ls' o r Ha Hx E N; cbn [sloop] in E.
   - inversion E; subst. congruence.
   - assert (Ev : eval c lm = eval c ls) by (apply (eval_agree P); auto).
-    pose proof (mstep_at body idx lm m ret _ Hn) as Hst.
-    rewrite mexec_for_present in Hst by (apply exists_in_true; assumption).
+    pose proof (mstep_at body idx lm (pos_set (fkey idx) 1%nat m) ret _ Hn) as Hst.
+    rewrite mexec_for_present in Hst; [| cbn [m_loc]; apply exists_in_true; assumption | cbn [m_pos]; exact Hown].
     rewrite mfor_auto in Hst by assumption. cbn [m_loc] in Hst. rewrite Ev in Hst.
     destruct (truthy (eval c ls)).
-    + destruct (quiet_block_sim aw fuel b Hq (O :: [idx]) lm ls m [] P) as (lm1 & ls1 & o1 & r1 & E1 & N1 & M1 & A1 & D1 & _);
-        [apply fresh_cons, Hfr | assumption | assumption |].
+    + destruct (quiet_block_sim aw fuel b Hq (O :: [idx]) lm ls (pos_set (fkey idx) 1%nat m) [] P) as (lm1 & ls1 & o1 & r1 & E1 & N1 & M1 & A1 & D1 & _);
+        [exact HfrF | assumption | assumption |].
       rewrite E1 in E. rewrite M1 in Hst. cbn [app] in Hst.
       destruct r1 as [| v |]; [| | congruence]; cbn [out_of m_loc m_pos m_out with_loc] in Hst.
       * destruct (sloop _ _ _ k _) as [[l2 o2] r2] eqn:E2. inversion E; subst ls' o r.
@@ -273,15 +293,16 @@ Proof.
         -- assert (DD : same_dom lm (assign x (eval u lm1) lm1)).
            { eapply same_dom_trans; [exact D1 | apply same_dom_assign]. }
            destruct r2; try assumption.
-           ++ destruct F as (lm' & -> & A' & D'). exists lm'.
+           ++ destruct F as (lmL & -> & A' & D'). exists lmL.
               split; [reflexivity | split; [assumption | eapply same_dom_trans; eauto]].
-           ++ destruct F as (lm' & -> & A' & D'). exists lm'.
+           ++ destruct F as (lmL & -> & A' & D'). exists lmL.
               split; [reflexivity | split; [assumption | eapply same_dom_trans; eauto]].
       * inversion E; subst ls' o r. exists 1%nat; do 2 eexists. split; [| split].
         -- apply mrun_1. exact Hst.
         -- cbn. rewrite outputs_of_app, outputs_of_out_events. cbn. apply app_nil_r.
-        -- exists lm1. reflexivity.
-    + inversion E; subst ls' o r. exists 1%nat; do 2 eexists. split; [| split].
+        -- exists lm1, (pos_set (fkey idx) 1%nat m). reflexivity.
+    + inversion E; subst ls' o r. cbn [m_loc m_pos m_out] in Hst. fold (fkey idx) in Hst. rewrite Hdel in Hst.
+      exists 1%nat; do 2 eexists. split; [| split].
       * apply mrun_1. exact Hst.
       * reflexivity.
       * exists lm. split; [reflexivity | split; [assumption | apply same_dom_refl]].
@@ -305,13 +326,14 @@ Lemma for_first_sim : forall body idx x i c u b ret (P : var -> Prop) m,
     SX (SFor x i c u b) ls = (ls', o, r) -> r <> SFuel ->
     exists n t' ev, mrun' n (T body idx lm m false ret) = (t', ev) /\ outputs_of ev = o /\
       match r with
-      | SReturn_ v => exists lm', t' = T body idx lm' m true (Some v)
+      | SReturn_ v => exists lm' m', t' = T body idx lm' m' true (Some v)
       | _ => exists lm', t' = T body (S idx) lm' m (done_after body idx) ret /\
-                         agree (fun y => P y /\ y <> x) lm' ls' /\
-                         (forall z, z <> x -> (lookup z lm' = None <-> lookup z lm = None))
+                         agree P lm' ls' /\ same_dom lm lm'
       end.
 Proof.
   intros body idx x i c u b ret P m Hn Hq Hfr HP Hfuel lm ls ls' o r Ha Hx E N.
+  set (mF := pos_set (fkey idx) 1%nat m).
+  assert (HfrF : fresh [O; idx] mF) by (apply fresh_under_marker, Hfr).
   assert (HPi : forall y, In y (evars i) -> P y).
   { intros y Hy. apply HP. cbn. right. apply in_or_app. now left. }
   assert (HPc : forall y, In y (evars c) -> P y).
@@ -320,6 +342,7 @@ Proof.
   { intros y Hy. apply HP. cbn. right. apply in_or_app. right. apply in_or_app. right. apply in_or_app. now left. }
   assert (HPb : forall y, In y (flat_map mentions b) -> P y).
   { intros y Hy. apply HP. cbn. right. apply in_or_app. right. apply in_or_app. right. apply in_or_app. now right. }
+  assert (HPx : P x) by (apply HP; cbn; now left).
   assert (Ei : eval i lm = eval i ls) by (apply (eval_agree P); auto).
   set (lm0 := declare x (eval i lm) lm). set (ls0 := declare x (eval i ls) ls).
   assert (A0 : agree P lm0 ls0).
@@ -328,15 +351,22 @@ Proof.
   { intros z Hz. unfold lm0. rewrite lookup_declare. apply Nat.eqb_neq in Hz. now rewrite Hz. }
   assert (Hx0 : lookup x lm0 <> None).
   { unfold lm0. rewrite lookup_declare, Nat.eqb_refl. discriminate. }
+  (* removing the variable again gives back the domain of lm *)
+  assert (Hrem : forall lmL, same_dom lm0 lmL -> same_dom lm (remove x lmL)).
+  { intros lmL D z. rewrite lookup_remove. destruct (Nat.eqb z x) eqn:Ez.
+    - apply Nat.eqb_eq in Ez. subst z. tauto.
+    - apply Nat.eqb_neq in Ez. rewrite <- (Hdom0 z Ez). apply D. }
+  assert (Hagr : forall lmL lsL, agree P lmL lsL -> agree P (remove x lmL) (remove x lsL)).
+  { intros lmL lsL A y Hy. rewrite !lookup_remove. destruct (Nat.eqb y x); auto. }
   cbn [sexec] in E. fold ls0 in E. rewrite sloop_unfold in E by assumption.
   assert (Ev : eval c lm0 = eval c ls0) by (apply (eval_agree P); auto).
   pose proof (mstep_at body idx lm m ret _ Hn) as Hst.
   rewrite mexec_for_absent in Hst by (apply exists_in_false; assumption).
-  unfold with_loc in Hst. cbn [m_loc m_pos m_out] in Hst. fold lm0 in Hst.
+  cbn [m_loc m_pos m_out] in Hst. fold lm0 in Hst. fold (fkey idx) in Hst. fold mF in Hst.
   rewrite mfor_auto in Hst by assumption. cbn [m_loc] in Hst. rewrite Ev in Hst.
   destruct (truthy (eval c ls0)).
-  - destruct (quiet_block_sim aw fuel b Hq (O :: [idx]) lm0 ls0 m [] P) as (lm1 & ls1 & o1 & r1 & E1 & N1 & M1 & A1 & D1 & _);
-      [apply fresh_cons, Hfr | assumption | assumption |].
+  - destruct (quiet_block_sim aw fuel b Hq (O :: [idx]) lm0 ls0 mF [] P) as (lm1 & ls1 & o1 & r1 & E1 & N1 & M1 & A1 & D1 & _);
+      [exact HfrF | assumption | assumption |].
     rewrite E1 in E. rewrite M1 in Hst. cbn [app] in Hst.
     destruct r1 as [| v |]; [| | congruence]; cbn [out_of m_loc m_pos m_out with_loc] in Hst.
     + destruct (sloop _ _ _ (Nat.pred fuel) _) as [[l2 o2] r2] eqn:E2.
@@ -354,25 +384,22 @@ Proof.
       * cbn. rewrite !outputs_of_app, outputs_of_out_events, O. cbn. rewrite app_nil_r.
         destruct r2; inversion E; subst; reflexivity.
       * destruct r2; inversion E; subst; try congruence; try exact F.
-        destruct F as (lm' & -> & A' & D'). exists lm'. split; [reflexivity | split].
-        -- intros y [Hy Hyx]. rewrite lookup_remove. apply Nat.eqb_neq in Hyx. rewrite Hyx. now apply A'.
-        -- intros z Hz. rewrite <- (Hdom0 z Hz). specialize (D' z). specialize (DD z). tauto.
+        destruct F as (lmL & -> & A' & D'). exists (remove x lmL). split; [reflexivity | split].
+        -- now apply Hagr.
+        -- apply Hrem. eapply same_dom_trans; eauto.
     + inversion E; subst ls' o r. exists 1%nat; do 2 eexists. split; [| split].
       * apply mrun_1. exact Hst.
       * cbn. rewrite outputs_of_app, outputs_of_out_events. cbn. apply app_nil_r.
-      * exists lm1. reflexivity.
-  - inversion E; subst ls' o r. cbn [with_loc m_loc m_pos m_out] in Hst.
+      * exists lm1, mF. reflexivity.
+  - inversion E; subst ls' o r. cbn [m_loc m_pos m_out] in Hst. fold (fkey idx) in Hst. unfold mF in Hst.
+    rewrite pos_del_set_absent in Hst by (apply Hfr; exists [2%nat]; reflexivity).
     exists 1%nat; do 2 eexists. split; [| split].
     + apply mrun_1. exact Hst.
     + reflexivity.
     + exists (remove x lm0). split; [reflexivity | split].
-      * intros y [Hy Hyx]. rewrite !lookup_remove. apply Nat.eqb_neq in Hyx. rewrite Hyx. now apply A0.
-      * intros z Hz. rewrite lookup_remove. pose proof Hz as Hz'. apply Nat.eqb_neq in Hz'. rewrite Hz'.
-        rewrite (Hdom0 z Hz). tauto.
+      * now apply Hagr.
+      * apply Hrem, same_dom_refl.
 Qed.
-
-
-
 
 (* ------------------------------------------------------------------ while (c) { quiet...; yield; } *)
 Lemma quiet_yield_last_split : forall b, quiet_yield_last b = true ->
@@ -552,24 +579,6 @@ Proof.
   - right; right; right; right. do 5 eexists. eauto.
 Qed.
 
-Lemma quiet_for_var : forall s, quiet s = true -> for_var s = [].
-Proof. intros s H. destruct s; cbn in *; try reflexivity; discriminate. Qed.
-
-Lemma for_var_mentions : forall s z, In z (for_var s) -> In z (mentions s).
-Proof. intros s z H. destruct s; cbn in *; try contradiction. destruct H as [-> | []]. now left. Qed.
-
-Lemma hygienic_cons : forall X s r, hygienic X (s :: r) = true ->
-  (forall y, In y (mentions s) -> ~ In y X) /\ hygienic (X ++ for_var s) r = true.
-Proof. intros X s r H. cbn in H. apply andb_true_iff in H as [H1 H2]. split; [now apply disjointb_spec | assumption]. Qed.
-
-Lemma hygienic_for_vars : forall r X, hygienic X r = true -> forall z, In z (flat_map for_var r) -> ~ In z X.
-Proof.
-  induction r as [| s r IH]; intros X H z Hz; [contradiction |].
-  apply hygienic_cons in H as [H1 H2]. cbn in Hz. apply in_app_or in Hz as [Hz | Hz].
-  - apply H1. now apply for_var_mentions.
-  - intros Hin. apply (IH _ H2 z Hz). apply in_or_app. now left.
-Qed.
-
 Lemma nth_error_mid : forall (pre : list stmt) s rest, nth_error (pre ++ s :: rest) (length pre) = Some s.
 Proof. intros. rewrite nth_error_app2 by lia. now rewrite Nat.sub_diag. Qed.
 
@@ -586,28 +595,32 @@ Proof. intros. now rewrite <- app_assoc. Qed.
 Lemma fuel_pos_of_loop : forall cond bodyf upd l r, sloop cond bodyf upd fuel l = r -> snd r <> SFuel -> (1 <= fuel)%nat.
 Proof. intros cond bodyf upd l r H N. destruct fuel; [| lia]. cbn in H. subst r. cbn in N. congruence. Qed.
 
-Lemma tail_sim : forall rest pre lm ls X ret0 dn m,
+Definition PT : var -> Prop := fun _ => True.
+
+Lemma tail_sim : forall rest pre lm ls ret0 dn m (FV : list var),
   forallb top_ok rest = true ->
-  hygienic X rest = true ->
-  (forall z, In z (flat_map for_var rest) -> lookup z lm = None) ->
-  agree (fun y => ~ In y X) lm ls ->
+  (forall z, In z (flat_map for_var rest) -> In z FV) ->
+  (forall z, In z FV -> lookup z lm = None) ->
+  agree PT lm ls ->
   (dn = true -> rest = []) ->
   stale (length pre) m ->
   forall ls' out r, sblock_with SX rest ls = (ls', out, r) -> r <> SFuel ->
   exists n t' ev, mrun' n (T (pre ++ rest) (length pre) lm m dn ret0) = (t', ev) /\
     t_done t' = true /\ t_stuck t' = false /\ outputs_of ev = out /\ t_ret t' = ret_of r ret0 /\
-    (r = SNormal -> agree (fun y => ~ In y (X ++ flat_map for_var rest)) (t_loc t') ls').
+    (r = SNormal -> agree PT (t_loc t') ls').
 Proof.
-  induction rest as [| s rest IH]; intros pre lm ls X ret0 dn m Htop Hhyg Habs Ha Hdn Hst ls' out r E N.
+  induction rest as [| s rest IH]; intros pre lm ls ret0 dn m FV Htop Hfv Habs Ha Hdn Hst ls' out r E N.
   - cbn in E. inversion E; subst ls' out r. destruct dn.
-    + exists 0%nat; do 2 eexists. cbn. repeat split; auto. intros _. cbn [flat_map]. rewrite app_nil_r. assumption.
+    + exists 0%nat; do 2 eexists. cbn. repeat split; auto.
     + exists 1%nat; do 2 eexists. split.
       { apply mrun_1. unfold mstep, T. cbn [t_done t_stuck orb t_body t_idx].
         rewrite app_nil_r. rewrite (proj2 (nth_error_None pre (length pre))) by lia. reflexivity. }
-      cbn. repeat split; auto. intros _. rewrite app_nil_r. assumption.
+      cbn. repeat split; auto.
   - assert (dn = false) as -> by (destruct dn; [specialize (Hdn eq_refl); discriminate | reflexivity]).
     cbn [forallb] in Htop. apply andb_true_iff in Htop as [Hs Htop].
-    apply hygienic_cons in Hhyg as [HP Hhyg].
+    assert (HP : forall y, In y (mentions s) -> PT y) by (intros; exact I).
+    assert (Hfv' : forall z, In z (flat_map for_var rest) -> In z FV).
+    { intros z Hz. apply Hfv. cbn [flat_map]. apply in_or_app. now right. }
     pose proof (nth_error_mid pre s rest) as Hn.
     pose proof (stale_fresh _ _ Hst) as Hfr.
     cbn [sblock_with] in E. fold (sblock_with SX) in E.
@@ -619,9 +632,8 @@ Proof.
     + (* yield *)
       cbn [sexec] in E.
       destruct (sblock_with SX rest ls) as [[l2 o2] r2] eqn:E2. inversion E; subst ls' out r.
-      destruct (IH (pre ++ [SYield]) lm ls X ret0 false m) with (ls' := l2) (out := o2) (r := r2)
+      destruct (IH (pre ++ [SYield]) lm ls ret0 false m FV Htop Hfv' Habs Ha) with (ls' := l2) (out := o2) (r := r2)
         as (n & t' & ev & R & F); auto.
-      { cbn [for_var] in Hhyg. now rewrite app_nil_r in Hhyg. }
       { discriminate. }
       { apply HstS, stale_S, Hst. }
       rewrite Hlen, <- Hbody in R.
@@ -629,39 +641,37 @@ Proof.
       { eapply mrun_S; [| exact R]. rewrite (mstep_at body (length pre) lm m ret0 _ Hn). cbn. reflexivity. }
       destruct F as (F1 & F2 & F3 & F4 & F5). repeat split; auto.
     + (* quiet statement *)
-      destruct (step_quiet body (length pre) s ret0 (fun y => ~ In y X) lm ls m Hn Hq Hfr HP Ha)
+      destruct (step_quiet body (length pre) s ret0 PT lm ls m Hn Hq Hfr HP Ha)
         as (lm1 & ls1 & o1 & r1 & E1 & N1 & A1 & D1 & ev1 & O1 & St1).
-      rewrite E1 in E. rewrite (quiet_for_var s Hq), app_nil_r in Hhyg.
+      rewrite E1 in E.
       destruct r1 as [| v |]; [| | congruence].
       * destruct (sblock_with SX rest ls1) as [[l2 o2] r2] eqn:E2. inversion E; subst ls' out r.
-        destruct (IH (pre ++ [s]) lm1 ls1 X ret0 (done_after body (length pre)) m) with (ls' := l2) (out := o2) (r := r2)
+        destruct (IH (pre ++ [s]) lm1 ls1 ret0 (done_after body (length pre)) m FV Htop Hfv') with (ls' := l2) (out := o2) (r := r2)
           as (n & t' & ev & R & F); auto.
-        { intros z Hz. apply D1. apply Habs. cbn [flat_map]. apply in_or_app. now right. }
+        { intros z Hz. apply D1. now apply Habs. }
         { apply done_after_mid. }
         { apply HstS, stale_S, Hst. }
         rewrite Hlen, <- Hbody in R.
         exists (S n), t'; eexists. split.
         { eapply mrun_S; [exact St1 | exact R]. }
         destruct F as (F1 & F2 & F3 & F4 & F5). repeat split; auto.
-        -- rewrite outputs_of_app, O1, F3. reflexivity.
-        -- intros Hr. cbn [flat_map]. rewrite (quiet_for_var s Hq). cbn [app]. auto.
+        rewrite outputs_of_app, O1, F3. reflexivity.
       * inversion E; subst ls' out r. exists 1%nat; do 2 eexists. split.
         { apply mrun_1. exact St1. }
-        cbn. repeat split; auto. discriminate.
+        cbn. repeat split; auto; try discriminate.
     + (* while, quiet body *)
       cbn [sexec] in E.
       destruct (sloop _ _ _ fuel ls) as [[l1 o1] r1] eqn:E1.
       assert (N1 : r1 <> SFuel) by (intros ->; inversion E; subst; congruence).
       assert (Hfuel : (1 <= fuel)%nat) by (eapply fuel_pos_of_loop; [exact E1 | exact N1]).
-      destruct (while_sim body (length pre) c b ret0 (fun y => ~ In y X) m Hn Hq Hfr HP Hfuel fuel lm ls l1 o1 r1 Ha E1 N1)
+      destruct (while_sim body (length pre) c b ret0 PT m Hn Hq Hfr HP Hfuel fuel lm ls l1 o1 r1 Ha E1 N1)
         as (n1 & t1 & ev1 & R1 & O1 & F1).
-      cbn [for_var] in Hhyg. rewrite app_nil_r in Hhyg.
       destruct r1 as [| v |]; [| | congruence].
       * destruct F1 as (lm1 & -> & A1 & D1).
         destruct (sblock_with SX rest l1) as [[l2 o2] r2] eqn:E2. inversion E; subst ls' out r.
-        destruct (IH (pre ++ [SWhile c b]) lm1 l1 X ret0 (done_after body (length pre)) m) with (ls' := l2) (out := o2) (r := r2)
+        destruct (IH (pre ++ [SWhile c b]) lm1 l1 ret0 (done_after body (length pre)) m FV Htop Hfv') with (ls' := l2) (out := o2) (r := r2)
           as (n & t' & ev & R & F); auto.
-        { intros z Hz. apply D1. apply Habs. cbn [flat_map]. apply in_or_app. now right. }
+        { intros z Hz. apply D1. now apply Habs. }
         { apply done_after_mid. }
         { apply HstS, stale_S, Hst. }
         rewrite Hlen, <- Hbody in R.
@@ -670,22 +680,21 @@ Proof.
         destruct F as (F1 & F2 & F3 & F4 & F5). repeat split; auto.
         rewrite outputs_of_app, O1, F3. reflexivity.
       * destruct F1 as (lm1 & ->). inversion E; subst ls' out r. exists n1; do 2 eexists. split; [exact R1 |].
-        cbn. repeat split; auto. discriminate.
+        cbn. repeat split; auto; try discriminate.
     + (* while, quiet body with a trailing yield *)
       cbn [sexec] in E.
       destruct (sloop _ _ _ fuel ls) as [[l1 o1] r1] eqn:E1.
       assert (N1 : r1 <> SFuel) by (intros ->; inversion E; subst; congruence).
       assert (Hfuel : (1 <= fuel)%nat) by (eapply fuel_pos_of_loop; [exact E1 | exact N1]).
-      destruct (while_ty_sim body (length pre) c b0 ret0 (fun y => ~ In y X) m Hn Hq Hfr HP Hfuel fuel lm ls l1 o1 r1 m
+      destruct (while_ty_sim body (length pre) c b0 ret0 PT m Hn Hq Hfr HP Hfuel fuel lm ls l1 o1 r1 m
                   Ha (or_introl eq_refl) E1 N1)
         as (n1 & t1 & ev1 & R1 & O1 & F1).
-      cbn [for_var] in Hhyg. rewrite app_nil_r in Hhyg.
       destruct r1 as [| v |]; [| | congruence].
       * destruct F1 as (lm1 & m1 & -> & Hm1 & A1 & D1).
         destruct (sblock_with SX rest l1) as [[l2 o2] r2] eqn:E2. inversion E; subst ls' out r.
-        destruct (IH (pre ++ [SWhile c (b0 ++ [SYield])]) lm1 l1 X ret0 (done_after body (length pre)) m1) with (ls' := l2) (out := o2) (r := r2)
+        destruct (IH (pre ++ [SWhile c (b0 ++ [SYield])]) lm1 l1 ret0 (done_after body (length pre)) m1 FV Htop Hfv') with (ls' := l2) (out := o2) (r := r2)
           as (n & t' & ev & R & F); auto.
-        { intros z Hz. apply D1. apply Habs. cbn [flat_map]. apply in_or_app. now right. }
+        { intros z Hz. apply D1. now apply Habs. }
         { apply done_after_mid. }
         { apply HstS. destruct Hm1 as [-> | ->]; [apply stale_S, Hst | apply stale_set, Hst]. }
         rewrite Hlen, <- Hbody in R.
@@ -694,39 +703,31 @@ Proof.
         destruct F as (F1 & F2 & F3 & F4 & F5). repeat split; auto.
         rewrite outputs_of_app, O1, F3. reflexivity.
       * destruct F1 as (lm1 & m1 & ->). inversion E; subst ls' out r. exists n1; do 2 eexists. split; [exact R1 |].
-        cbn. repeat split; auto. discriminate.
+        cbn. repeat split; auto; try discriminate.
     + (* for *)
       destruct (SX (SFor x i c u b) ls) as [[l1 o1] r1] eqn:E1.
       assert (N1 : r1 <> SFuel) by (intros ->; inversion E; subst; congruence).
       assert (Hfuel : (1 <= fuel)%nat).
       { destruct fuel; [| lia]. cbn in E1. inversion E1; subst. congruence. }
       assert (Hx : lookup x lm = None).
-      { apply Habs. cbn. now left. }
-      destruct (for_first_sim body (length pre) x i c u b ret0 (fun y => ~ In y X) m Hn Hq Hfr HP Hfuel lm ls l1 o1 r1 Ha Hx E1 N1)
+      { apply Habs, Hfv. cbn. now left. }
+      destruct (for_first_sim body (length pre) x i c u b ret0 PT m Hn Hq Hfr HP Hfuel lm ls l1 o1 r1 Ha Hx E1 N1)
         as (n1 & t1 & ev1 & R1 & O1 & F1).
-      cbn [for_var] in Hhyg.
       destruct r1 as [| v |]; [| | congruence].
       * destruct F1 as (lm1 & -> & A1 & D1).
         destruct (sblock_with SX rest l1) as [[l2 o2] r2] eqn:E2. inversion E; subst ls' out r.
-        destruct (IH (pre ++ [SFor x i c u b]) lm1 l1 (X ++ [x]) ret0 (done_after body (length pre)) m) with (ls' := l2) (out := o2) (r := r2)
+        destruct (IH (pre ++ [SFor x i c u b]) lm1 l1 ret0 (done_after body (length pre)) m FV Htop Hfv') with (ls' := l2) (out := o2) (r := r2)
           as (n & t' & ev & R & F); auto.
-        { intros z Hz. assert (z <> x).
-          { intros ->. apply (hygienic_for_vars rest _ Hhyg x Hz). apply in_or_app. right. now left. }
-          apply D1; [assumption |]. apply Habs. cbn [flat_map]. apply in_or_app. now right. }
-        { intros y Hy. apply A1. split.
-          - intros Hin. apply Hy. apply in_or_app. now left.
-          - intros ->. apply Hy. apply in_or_app. right. now left. }
+        { intros z Hz. apply D1. now apply Habs. }
         { apply done_after_mid. }
         { apply HstS, stale_S, Hst. }
         rewrite Hlen, <- Hbody in R.
         exists (n1 + n)%nat, t'; eexists. split.
         { apply mrun_app with (t1 := T body (S (length pre)) lm1 m (done_after body (length pre)) ret0); eassumption. }
         destruct F as (F1 & F2 & F3 & F4 & F5). repeat split; auto.
-        -- rewrite outputs_of_app, O1, F3. reflexivity.
-        -- intros Hr. cbn [flat_map for_var]. cbn [app]. specialize (F5 Hr).
-           rewrite <- app_assoc in F5. exact F5.
-      * destruct F1 as (lm1 & ->). inversion E; subst ls' out r. exists n1; do 2 eexists. split; [exact R1 |].
-        cbn. repeat split; auto. discriminate.
+        rewrite outputs_of_app, O1, F3. reflexivity.
+      * destruct F1 as (lm1 & m1 & ->). inversion E; subst ls' out r. exists n1; do 2 eexists. split; [exact R1 |].
+        cbn. repeat split; auto; try discriminate.
 Qed.
 
 Lemma register_auto_true : forall body, register_auto body = true.
@@ -743,7 +744,7 @@ Qed.
 (* Main refinement: for every body of the fragment, every argument list, every await oracle: if the
    body run alone ends (normally or by return) then after finitely many step grants the task is
    complete, and for every larger number of grants the concatenated output of the steps, the result
-   and the locals (off the loop variables) are those of the body run alone. *)
+   and ALL locals are those of the body run alone. *)
 Theorem resume_refines_sequential_l : forall body args ls' out r,
   wf_body (map fst args) body = true ->
   spec_run aw fuel body args = (ls', out, r) -> r <> SFuel ->
@@ -751,11 +752,11 @@ Theorem resume_refines_sequential_l : forall body args ls' out r,
     (forall m, (n <= m)%nat -> mrun' m (spawn body args) = (t', ev)) /\
     t_done t' = true /\ t_stuck t' = false /\ outputs_of ev = out /\
     t_ret t' = ret_of r None /\
-    (r = SNormal -> forall y, ~ In y (flat_map for_var body) -> lookup y (t_loc t') = lookup y ls').
+    (r = SNormal -> forall y, lookup y (t_loc t') = lookup y ls').
 Proof.
   intros body args ls' out r Hwf E N. unfold wf_body in Hwf.
-  apply andb_true_iff in Hwf as [Hwf Hh]. apply andb_true_iff in Hwf as [Ht Hd].
-  destruct (tail_sim body [] args args [] None false [] Ht Hh) with (ls' := ls') (out := out) (r := r)
+  apply andb_true_iff in Hwf as [Ht Hd].
+  destruct (tail_sim body [] args args None false [] (flat_map for_var body) Ht) with (ls' := ls') (out := out) (r := r)
     as (n & t' & ev & R & F1 & F2 & F3 & F4 & F5); auto.
   - intros z Hz. apply lookup_not_in. rewrite disjointb_spec in Hd. now apply Hd.
   - apply agree_refl.
@@ -766,7 +767,7 @@ Proof.
       replace m with (n + (m - n))%nat by lia.
       cbn [app length] in R. unfold T in R.
       rewrite (mrun_app n (m - n) _ t' ev t' []); [now rewrite app_nil_r | exact R | now apply mrun_done].
-    + intros Hr y Hy. apply (F5 Hr). exact Hy.
+    + intros Hr y. apply (F5 Hr). exact I.
 Qed.
 
 (* one step on a statement without yields and loops = that statement run sequentially on the saved locals *)
